@@ -1,12 +1,18 @@
 #!/bin/bash
-# usage: try_seeded.sh <patch.diff> <prop> [<prop> ...] — applies a patch to a scratch copy of /repo (never to /repo) and runs the quick checks on it
+# usage: try_seeded.sh <patch.diff> <prop> [<prop> ...] — applies a patch to a scratch copy of /repo (never to /repo) and runs the quick checks on it.
+# BIN=<checker binary> uses that binary instead of ./check (for trying a development build of the checker).
 set -u
-patch="$1"; shift
+patch="$(readlink -f "$1")"; shift
 d=$(mktemp -d /tmp/c4e-try-XXXXXX)
 rsync -a --exclude .git --exclude ts-client --exclude vue /repo/ "$d/src/"
 (cd "$d/src" && patch -p1 -s < "$patch") || { echo "patch does not apply"; rm -rf "$d"; exit 2; }
 for p in "$@"; do
-  VERIF_REPO="$d/src" VERIF_OUT="$d/out" /verif/check "$p" quick 2>&1 | grep -A1 "^VIOLATED\|^UNDECIDED" | grep -v "^--" | cut -c1-400
-  VERIF_REPO="$d/src" VERIF_OUT="$d/out" /verif/check "$p" quick 2>&1 | tail -1 | grep "^PASS"
+  if [ -n "${BIN:-}" ]; then
+    out=$("$BIN" -prop "$p" -tier quick -repo "$d/src" -verif /verif -out "$d/out" 2>&1)
+  else
+    out=$(VERIF_REPO="$d/src" VERIF_OUT="$d/out" /verif/check "$p" quick 2>&1)
+  fi
+  echo "$out" | grep -A1 "^VIOLATED\|^UNDECIDED" | grep -v "^--" | cut -c1-400
+  echo "$out" | tail -1 | grep "^PASS"
 done
 rm -rf "$d"
